@@ -102,8 +102,6 @@ def run_sets(spec, out):
             cnt += 1
             try:
                 w.step(op)
-            except RecursionError:
-                raise
             except Exception as e:
                 from ..viol import Violation, innermost_dd_frame
                 if not isinstance(e, Violation) and \
